@@ -28,7 +28,7 @@ HCall(c) ==
   /\ cfg' = Cfg(c) /\ phase' = "run" /\ UNCHANGED hist
   /\ pc' = "eval" /\ cur' = [t |-> "call", n |-> Pool[c].rule] /\ ok' = TRUE
   /\ pos' = Pool[c].lo /\ stk' = <<>> /\ K' = <<>> /\ at' = "N" /\ look' = 0 /\ dep' = 0
-  /\ toks' = <<>> /\ calls' = <<>> /\ cdep' = 0 /\ trk' = EmptyTrk(Pool[c].lo) /\ skp' = 0 /\ dv' = <<>> /\ log' = <<>>
+  /\ toks' = <<>> /\ calls' = <<>> /\ cdep' = 0 /\ trk' = EmptyTrk(Pool[c].lo) /\ skp' = 0 /\ dv' = <<>> /\ log' = <<>> /\ evs' = <<>>
   /\ fin' = [ok |-> FALSE]
 
 HStep == phase = "run" /\ ~Halted /\ MNext /\ UNCHANGED <<cfg, hist, phase>>
